@@ -65,7 +65,7 @@ def mul_by_named_constant(names_regex, fn_name="MUL"):
 
 HU = "hll/include/HllUtil.hpp"
 HLL_CONSTS = [{"file": HU, "prefix": "hll_constants_",
-               "pattern": r"static const (?P<type>uint8_t|uint32_t) (?P<name>[A-Za-z_0-9]+) = (?P<value>[^;{]+);", "min_count": 25}]
+               "pattern": r"static const (?P<type>uint8_t|uint32_t) (?P<name>[A-Za-z_0-9]+)\s*=\s*(?P<value>[^;{]+);", "min_count": 40}]
 HLL_STRUCT = r'''
 enum { HLL_4 = 0, HLL_6 = 1, HLL_8 = 2 };
 enum { LIST = 0, SET = 1, HLL = 2 };
